@@ -7,7 +7,9 @@ import (
 	"fmt"
 	"io"
 	"net"
+	"os"
 	"sync"
+	"sync/atomic"
 	"testing"
 	"time"
 
@@ -15,6 +17,7 @@ import (
 	"github.com/bokysan/socketace/v2/internal/version"
 	"github.com/bokysan/socketace/v2/internal/zzverif/vlib"
 	"github.com/gorilla/websocket"
+	mdns "github.com/miekg/dns"
 	"github.com/xtaci/kcp-go/v5"
 	"pgregory.net/rapid"
 )
@@ -41,6 +44,25 @@ type caseDesc struct {
 	Cut      int    `json:"cut"`
 	Stalled  int    `json:"stalled_peers"`
 	Good     int    `json:"good_clients"`
+	// DNSSilent (dns endpoint only): at the stall point the peer stops sending DNS queries altogether - no polls, no
+	// acknowledgements - so whatever the server has to say to it stays unacknowledged for ever. Without it a stalled
+	// DNS peer is silent on the tunnelled byte stream only and keeps polling.
+	DNSSilent bool `json:"dns_peer_stops_polling,omitempty"`
+}
+
+// mutedComm is a DNS communicator that can be switched to sending nothing at all.
+type mutedComm struct {
+	sdns.ClientCommunicator
+	muted int32
+	stop  <-chan struct{}
+}
+
+func (m *mutedComm) SendAndReceive(q *mdns.Msg, timeout *time.Duration) (*mdns.Msg, time.Duration, error) {
+	if atomic.LoadInt32(&m.muted) != 0 {
+		<-m.stop
+		return nil, 0, os.ErrDeadlineExceeded
+	}
+	return m.ClientCommunicator.SendAndReceive(q, timeout)
 }
 
 func announce() string {
@@ -83,6 +105,12 @@ func readResponse(c io.Reader) {
 
 // script runs the misbehaviour on an established byte stream (already past any carrier-level handshake).
 func script(c io.ReadWriter, d caseDesc, stop <-chan struct{}) {
+	scriptSteps(c, d, stop, false)
+	<-stop
+}
+
+// scriptSteps: with skipLastRead the peer does not fetch the server's answer to the last thing it sent.
+func scriptSteps(c io.ReadWriter, d caseDesc, stop <-chan struct{}, skipLastRead bool) {
 	switch d.Stall {
 	case stConnect:
 	case stPartial:
@@ -91,12 +119,16 @@ func script(c io.ReadWriter, d caseDesc, stop <-chan struct{}) {
 		c.Write([]byte(a[:k]))
 	case stBetween:
 		c.Write([]byte(announce()))
-		readResponse(c)
+		if !skipLastRead {
+			readResponse(c)
+		}
 	case stUpgraded:
 		c.Write([]byte(announce()))
 		readResponse(c)
 		c.Write([]byte(upgradeReq()))
-		readResponse(c)
+		if !skipLastRead {
+			readResponse(c)
+		}
 	case stGarbage:
 		c.Write(vlib.PRF(uint64(d.Cut), 0, 200+d.Cut%800))
 	case stSlow:
@@ -110,7 +142,6 @@ func script(c io.ReadWriter, d caseDesc, stop <-chan struct{}) {
 			c.Write([]byte(a[i : i+1]))
 		}
 	}
-	<-stop
 }
 
 type wsRW struct{ c *websocket.Conn }
@@ -249,7 +280,8 @@ func startStalled(p *vlib.Pair, d caseDesc, stop <-chan struct{}, ready chan<- s
 			signal()
 			return
 		}
-		dc, err := sdns.NewClientDnsConnection("example.org", comm)
+		mc := &mutedComm{ClientCommunicator: comm, stop: stop}
+		dc, err := sdns.NewClientDnsConnection("example.org", mc)
 		if err != nil {
 			signal()
 			return
@@ -260,6 +292,16 @@ func startStalled(p *vlib.Pair, d caseDesc, stop <-chan struct{}, ready chan<- s
 		}
 		defer dc.Close()
 		closeOnStop(stop, comm)
+		if d.DNSSilent {
+			// everything the peer sends has arrived (a DNS write returns once acknowledged); the server's answer
+			// is never fetched, and the well-behaved clients start only now
+			scriptSteps(dc, d, stop, true)
+			atomic.StoreInt32(&mc.muted, 1)
+			time.Sleep(300 * time.Millisecond)
+			signal()
+			<-stop
+			return
+		}
 		signal()
 		script(dc, d, stop)
 	}
@@ -378,6 +420,7 @@ func TestStalledPeers(t *testing.T) {
 		d.Stalled = rapid.IntRange(1, 5).Draw(rt, "stalled")
 		if d.Kind == vlib.CarDNS {
 			d.Stalled = rapid.IntRange(1, 2).Draw(rt, "stalledDns")
+			d.DNSSilent = rapid.Bool().Draw(rt, "dnsSilent")
 		}
 		d.Good = rapid.IntRange(1, 3).Draw(rt, "good")
 		d.StartTLS = (d.Kind == vlib.CarTCP || d.Kind == vlib.CarUnix || d.Kind == vlib.CarHTTP || d.Kind == vlib.CarUDP) && rapid.IntRange(0, 2).Draw(rt, "starttls") == 0
@@ -388,10 +431,39 @@ func TestStalledPeers(t *testing.T) {
 			return
 		}
 		labels := []string{"kind:" + d.Kind, "stall:" + d.Stall, fmt.Sprintf("stalled:%d", d.Stalled), fmt.Sprintf("good:%d", d.Good)}
+		if d.DNSSilent {
+			labels = append(labels, "dns-peer-stops-polling")
+		}
 		vlib.Rec.Case(fmt.Sprintf("%+v", d), true, labels, func() interface{} { return d })
 		if problem != "" {
 			vlib.Rec.Violation(map[string]interface{}{"property": "C15", "case": d, "problem": problem})
 			rt.Fatalf("C15 %+v: %s", d, problem)
 		}
 	})
+}
+
+// TestDNSStallPoints enumerates, for the DNS endpoint (whose cases are drawn rarely above because each takes seconds),
+// every stall point at which the server has something to say to the stalled peer, with one stalled and one
+// well-behaved peer each.
+func TestDNSStallPoints(t *testing.T) {
+	for _, silent := range []bool{true, false} {
+		for _, st := range []string{stBetween, stGarbage, stUpgraded, stPartial, stConnect} {
+			d := caseDesc{Kind: vlib.CarDNS, Stall: st, Cut: 40, Stalled: 1, Good: 1, DNSSilent: silent}
+			vlib.Tap.Reset()
+			problem, inconclusive := runCase(d)
+			if inconclusive {
+				vlib.Rec.Inconclusive("setup-or-overload")
+				continue
+			}
+			labels := []string{"kind:" + d.Kind, "stall:" + d.Stall, "enumerated"}
+			if silent {
+				labels = append(labels, "dns-peer-stops-polling")
+			}
+			vlib.Rec.Case(fmt.Sprintf("enumerated %+v", d), true, labels, func() interface{} { return d })
+			if problem != "" {
+				vlib.Rec.Violation(map[string]interface{}{"property": "C15", "case": d, "problem": problem})
+				t.Fatalf("C15 %+v: %s", d, problem)
+			}
+		}
+	}
 }
